@@ -36,5 +36,12 @@ int main(void)
 #else
     printf("Definition h_psk_and_dhe_suites : bool := false.\n");
 #endif
+    /* pending-fixes/C06-8: a DTLS client takes the ChangeCipherSpec that is the sign of an unacknowledged ticket resumption
+       (the repaired tree names the condition); before the repair every ChangeCipherSpec outside FINISHED is skipped */
+#ifdef DTLS_CCS_SIGNALS_TICKET_RESUMPTION
+    printf("Definition h_dtls_ccs_signals_ticket_resumption : bool := true.\n");
+#else
+    printf("Definition h_dtls_ccs_signals_ticket_resumption : bool := false.\n");
+#endif
     return 0;
 }
